@@ -78,6 +78,22 @@ def _fact_geq(e: ast.AST, facts) -> bool:
     return False
 
 
+def strategies_with_state(prog: Program):
+    """the penalty policies that keep a rho of their own (some method of the class hierarchy stores self.rho)"""
+    base = prog.cls(PS)
+    out = []
+    for c in prog.all_subclasses(base, include_self=False):
+        if c.subclasses:
+            continue
+        stores = any(isinstance(n, ast.Attribute) and isinstance(n.ctx, ast.Store) and n.attr == "rho" and is_self_attr(n)
+                     for k in prog.mro(c) for m in k.methods.values() for n in own_nodes(m.node))
+        upd = prog.lookup_method(c, "update")
+        reads = upd is not None and any(isinstance(n, ast.Attribute) and isinstance(n.ctx, ast.Load) and n.attr == "rho" and is_self_attr(n) for n in own_nodes(upd.node))
+        if stores and reads:
+            out.append(c)
+    return out
+
+
 def run(prog: Program, rep, tier: str) -> None:
     rep.explanation = EXPLANATION
     rep.assumptions += ["params.rho > 0 (asserted by newton_method/step_solver before every step)",
@@ -271,6 +287,22 @@ def solver_side(prog: Program, rep) -> None:
                 ts = prog.infer_type(f, n.value)
                 if scls in ts:
                     rep.fail("solver-rho-writers", f.qualname, U(n), "VIOLATED: Solver.rho written from outside the solver", f.loc(n))
+    # the policy's own rho starts at params.rho in EVERY solve: the policy object is built inside solve() before the loop, or
+    # - if it outlives a solve - its initial() resets the stored rho (otherwise the second solve of a Solver starts its first
+    # accepted step from the previous solve's penalty: an unbounded jump, and above what this solve's multipliers justify)
+    pcalls = [n for n in own_nodes(sv.node) if isinstance(n, ast.Call) and dotted(n.func) == "penalty_strategy"]
+    fresh = bool(pcalls) and all(not ff.stmt_of(c).loops for c in pcalls)
+    for c in strategies_with_state(prog):
+        ini = prog.lookup_method(c, "initial")
+        resets = False
+        if ini is not None:
+            fi_ = facts_for(ini)
+            for n in own_nodes(ini.node):
+                if isinstance(n, ast.Assign) and any(is_self_attr(t, "rho") for t in n.targets) and U(fi_.resolved(n, n.value)) == "self.params.rho":
+                    resets = True
+        rep.check(fresh or resets, "penalty-fresh-per-solve", c.qualname, "rho at the start of a solve",
+                  f"{c.name}'s stored rho starts at params.rho in every solve (policy constructed inside solve(): {fresh}; initial() resets it: {resets})",
+                  f"{c.module.relpath}:{c.node.lineno}")
     # rho argument of every trial step
     calls = [n for n in own_nodes(sv.node) if isinstance(n, ast.Call) and isinstance(n.func, ast.Attribute) and n.func.attr == "_compute_step"]
     for c in calls:
